@@ -50,3 +50,16 @@ Theorem C01_apply_idempotent :
   forall u old e', wf u = true -> merge u old = Some e' -> merge u e' = Some e'.
 Proof. exact apply_idempotent. Qed.
 Print Assumptions C01_apply_idempotent.
+
+(* the correspondence check compares dictionaries up to the order of their keys (norm sorts
+   every dictionary by key): that loses no content *)
+Theorem C01_norm_get_path :
+  forall p v, get_path (norm v) p = option_map norm (get_path v p).
+Proof. exact norm_get_path. Qed.
+Print Assumptions C01_norm_get_path.
+
+Theorem C01_norm_eq_same_leaves :
+  forall a b, norm a = norm b ->
+  forall p n, get_path a p = Some (Leaf n) <-> get_path b p = Some (Leaf n).
+Proof. exact norm_eq_same_leaves. Qed.
+Print Assumptions C01_norm_eq_same_leaves.
